@@ -81,6 +81,23 @@ func protoBases() []NamedBase {
 				mfld("user_fields_mask", tNat(), "fields_mask", 0),
 				mfld("result_user_height", tInt(), "user_fields_mask", 0)),
 		}},
+		// TL primer, "#-parameters": point {F:#} / rectangle {F:#} / picture; the rectangle also uses one bit of F itself
+		{"primer/picture", Schema{
+			ctor("point", "Point", 1, []string{"F"}, mfld("x", tInt(), "F", 0), mfld("y", tInt(), "F", 1)),
+			ctor("rectangle", "Rectangle", 2, []string{"F"}, fld("a", tRef("point", true, aR("F"))),
+				fld("b", tRef("point", true, aR("F"))), mfld("color", tInt(), "F", 2)),
+			ctor("picture", "Picture", 3, nil, fld("point_fields_mask", tNat()),
+				fld("r", tRef("Rectangle", false, aR("point_fields_mask")))),
+			fn("getPicture", 4, tRef("Picture", false), fld("id", tInt())),
+		}},
+		// TL primer: rectangle3D r:(rectangle 7) -- the #-parameter of the outer type is fed by constants only
+		{"primer/rectangle3D", Schema{
+			ctor("point", "Point", 1, []string{"F"}, mfld("x", tInt(), "F", 0), mfld("y", tInt(), "F", 1)),
+			ctor("rectangle", "Rectangle", 2, []string{"F"}, fld("a", tRef("point", true, aR("F"))),
+				mfld("color", tInt(), "F", 2)),
+			ctor("rectangle3D", "Rectangle3D", 3, nil, fld("r", tRef("rectangle", true, aN(7)))),
+			fn("getRectangle", 4, tRef("Rectangle3D", false), fld("id", tInt())),
+		}},
 		// constants passed as masks, a nat that is an array size, boxed tuple (myBoxedTupleSlice, service3.Product 0)
 		{"proto/constants", Schema{
 			ctor("pattern", "Pattern", 1, []string{"fields_mask"},
@@ -251,4 +268,77 @@ func randomBase(seed int64, maxBit int) Schema {
 		g.s = append(g.s, fn(fmt.Sprintf("q%d", fi+1), g.tag, res, fs...))
 	}
 	return g.s
+}
+
+// estimateValues is a coarse upper bound of the number of values the model enumerates for the
+// schema (product of field domains; masks and nats counted generously). It only pre-filters
+// random candidates so that the exact count (NumValues, computed by TLC) stays cheap.
+func estimateValues(s Schema) float64 {
+	byType := map[string][]Comb{}
+	byCtor := map[string]Comb{}
+	for _, c := range s {
+		if !c.Fn {
+			byType[c.Typ] = append(byType[c.Typ], c)
+			byCtor[c.Name] = c
+		}
+	}
+	var te func(t TE) float64
+	var comb func(c Comb) float64
+	memo := map[string]float64{}
+	comb = func(c Comb) float64 {
+		if v, ok := memo[c.Name]; ok {
+			return v
+		}
+		p := 1.0
+		for range c.Targs {
+			p *= 4
+		}
+		for _, f := range c.Fields {
+			var n float64
+			if f.Ty.T == "#" {
+				n = 6
+			} else {
+				n = te(f.Ty)
+			}
+			if f.Mask != "" {
+				n++
+			}
+			p *= n
+			if p > 1e12 {
+				p = 1e12
+			}
+		}
+		memo[c.Name] = p
+		return p
+	}
+	te = func(t TE) float64 {
+		switch t.T {
+		case "int", "long":
+			return 1
+		case "string":
+			return 2
+		case "Vector":
+			return 1 + te(*t.Args[0].Ty)
+		case "Tuple":
+			v := te(*t.Args[0].Ty)
+			return 1 + v + v*v
+		}
+		if c, ok := byCtor[t.T]; ok {
+			return comb(c)
+		}
+		sum := 0.0
+		for _, c := range byType[t.T] {
+			sum += comb(c)
+		}
+		return sum
+	}
+	total := 0.0
+	for _, c := range s {
+		v := comb(c)
+		if c.Fn {
+			v *= te(c.Res)
+		}
+		total += v
+	}
+	return total
 }
